@@ -154,10 +154,15 @@ QUERY_NAMES = ["verif.base", "verif.mid", "verif.leaf", "verif.other", "verif.au
 QUERY_VERSIONS = [None, (0, 1, 0), (0, 1, 1), (0, 2, 0), (0, 3, 0), (1, 0, 0), (1, 1, 0), (2, 0, 0)]
 
 
+# text that a careless (de)serialiser mangles: non-BMP, quotes/backslash, newline, YAML syntax,
+# Unicode line separator, leading/trailing blanks, NEL
+TEXT_HAZARDS = ["", "", " \u00fc\u00df", " \U00020bb7\U0001f642", ' "q" \\ b', " line\nbreak", " k: v # - [x] {y}", " \u2028sep", "  pad  ", " \u0085nel", " 'single' & <tag>"]
+
+
 def instance(name, version, idx):
     """Deterministic valid instance (as dict) number idx of schema (name, version)."""
     i = int(idx)
-    t = f"obj{i}"
+    t = f"obj{i}" + TEXT_HAZARDS[i % len(TEXT_HAZARDS)]
     if name == "verif.base":
         d = {"title": t}
         if i % 2:
